@@ -105,7 +105,8 @@ var (
 	fLevel    = flag.String("level", "exploration", "evidence level")
 	fReplay   = flag.String("replay", "", "replay this file instead of exploring")
 	fTree     = flag.String("tree", "", "tree hash (recorded in replay files)")
-	fMinimize = flag.Duration("minimize", 90*time.Second, "wall-clock budget for minimising one violation")
+	fMinimize = flag.Duration("minimize", 75*time.Second, "wall-clock budget for minimising one violation class")
+	fMaxMin   = flag.Int("max-minimise", 2, "minimise at most this many violation classes per check (the others are reported with their original replay files)")
 	fRule     = flag.String("rule", "", "non-triviality rule text for the evidence file")
 	fProbes   = flag.String("require-probes", "", "comma separated probes that must be > 0 (thorough tier)")
 	fExtra    = flag.String("extra", "", "extra flags passed to the worker binary")
@@ -591,6 +592,7 @@ func main() {
 	var vlines, klines []string
 	knownSeen := map[int]bool{}
 	unknownViol := 0
+	minimised := 0
 	replayDir := filepath.Join(*fVerif, "replays")
 	if os.Getenv("BSIM_NO_EVIDENCE") != "" {
 		replayDir = filepath.Join(tmpDir(), "bsim-replays-experiment")
@@ -622,15 +624,16 @@ func main() {
 			continue
 		}
 		unknownViol += keyCount[k]
-		// minimise, then confirm in a fresh process
-		fmt.Printf("bsim: violation %s in %d runs (first: seed %d); minimising...\n", k, keyCount[k], r.Spec.Seed)
+		// minimise (the first classes only: the budget of a check is bounded), then confirm in a fresh process
+		fmt.Printf("bsim: violation %s, %d occurrences (first: seed %d)\n", k, keyCount[k], r.Spec.Seed)
 		orig := *r
 		orig.Spec.Replay = true
 		confirm, err := runSpecFile(orig.Spec)
 		unstable := err != nil || !hasKey(confirm, k)
 		final := &orig
 		tried := 0
-		if !unstable {
+		minimised++
+		if !unstable && minimised <= *fMaxMin {
 			m, n := minimise(&orig, k)
 			tried = n
 			if c2, err := runSpecFile(m.Spec); err == nil && hasKey(c2, k) {
